@@ -24,7 +24,12 @@ TAGS = (-1, 0, 2, 5)
 VECS = ((0.0, 0.0), (0.0, 0.5), (0.5, 0.0))
 COSTS9 = tuple(itertools.product((1.0, 2.0, 3.0), repeat=2))
 COSTS4 = ((1.0, 2.0), (2.0, 1.0), (2.0, 2.0), (3.0, 1.0))
-CRITERIA = (("minimize", "maximize"), ("maximize", "minimize"), (None, "minimize"))
+# 'maximise' / 'max': artap (Problem.signs, find_optimum) treats every criteria string other than 'minimize' as maximised
+CRITERIA = (("minimize", "maximize"), ("maximize", "minimize"), (None, "minimize"), ("maximise", "max"))
+
+
+def is_max(crit):
+    return crit is not None and crit != "minimize"
 
 
 _PROBLEMS = {}
@@ -261,13 +266,13 @@ def check_values(history, criteria):
         if not any(opt is i for i in inds):
             bad("C17:find_optimum:not-recorded", "find_optimum(%s) returned a foreign individual" % gname)
             continue
-        best = (max if crit == "maximize" else min)(i.costs[gi] for i in inds)
+        best = (max if is_max(crit) else min)(i.costs[gi] for i in inds)
         if opt.costs[gi] != best:
-            bad("C17:find_optimum:%s" % (crit or "absent"), "find_optimum(%s) returned cost %r, best is %r" % (gname, opt.costs[gi], best))
+            bad("C17:find_optimum:%s" % ("maximised" if is_max(crit) else (crit or "absent")), "find_optimum(%s) returned cost %r, best is %r" % (gname, opt.costs[gi], best))
     if len(inds) and True:
         try:
             opt = res.find_optimum()
-            best = (max if criteria[0] == "maximize" else min)(i.costs[0] for i in inds)
+            best = (max if is_max(criteria[0]) else min)(i.costs[0] for i in inds)
             if opt.costs[0] != best:
                 bad("C17:find_optimum:default-goal", "find_optimum() returned cost %r, best is %r" % (opt.costs[0], best))
         except Exception as e:
@@ -284,7 +289,7 @@ def check_optimum_near_ties(costs_seq, crit):
         opt = res.find_optimum(GN()[0])
     except Exception as e:
         return [("C17:find_optimum:exception:%s" % type(e).__name__, "find_optimum raised %r on costs %r" % (e, costs_seq))]
-    best = (max if crit == "maximize" else min)(costs_seq)
+    best = (max if is_max(crit) else min)(costs_seq)
     if not any(opt is i for i in inds) or opt.costs[0] != best:
         out.append(("C17:find_optimum:near-tie:%s" % (crit or "absent"), "find_optimum returned cost %r, best of %r is %r" % (opt.costs[0], costs_seq, best)))
     return out
